@@ -12,6 +12,8 @@ import (
 
 	"github.com/dave/dst"
 	"github.com/dave/dst/decorator"
+	"github.com/dave/dst/decorator/resolver/goast"
+	"github.com/dave/dst/decorator/resolver/guess"
 )
 
 // ---- Reuse.tla: one Decorator, one Restorer and one FileRestorer used for several files ----
@@ -98,9 +100,19 @@ func reuseJudgeBytes(src, out string) string {
 	return ""
 }
 
+// reuseImports: the objects of the replay manage imports (goast decorator resolver, guess restorer
+// resolver); set by the C07 run only, for the duration of that run
+var reuseImports bool
+
+func reuseObjects() (*decorator.Decorator, *decorator.Restorer) {
+	if reuseImports {
+		return decorator.NewDecoratorWithImports(token.NewFileSet(), "main", goast.New()), decorator.NewRestorerWithImports("main", guess.New())
+	}
+	return decorator.NewDecorator(token.NewFileSet()), decorator.NewRestorer()
+}
+
 func reuseReplayWith(b reuseBeh, sources []string, judge func(src, out string) string) string {
-	d := decorator.NewDecorator(token.NewFileSet())
-	r := decorator.NewRestorer()
+	d, r := reuseObjects()
 	fr := r.FileRestorer()
 	type dfile struct {
 		src int
@@ -168,11 +180,11 @@ func reuseReplayWith(b reuseBeh, sources []string, judge func(src, out string) s
 
 // reuseFreshLines: the line count of the token.File when the source is decorated and restored alone.
 func reuseFreshLines(src string) int {
-	f, err := decorator.Parse(src)
+	d, r := reuseObjects()
+	f, err := d.Parse(src)
 	if err != nil {
 		return -1
 	}
-	r := decorator.NewRestorer()
 	af, err := r.RestoreFile(f)
 	if err != nil {
 		return -1
@@ -260,5 +272,50 @@ func init() {
 			return ""
 		}
 		return reuseReplay(b)
+	}
+}
+
+// sources for Reuse.tla under C07: one path under an alias, plainly, and a standard name used as the
+// alias of another package; what a file is printed as may not depend on the files restored before it
+var c07ReuseSources = []string{
+	"package main\n\nimport f \"fmt\"\n\nfunc a() { f.Println(\"a\") }\n",
+	"package main\n\nimport \"fmt\"\n\nfunc b() { fmt.Println(\"b\") }\n",
+	"package main\n\nimport (\n\tfmt \"os\"\n\tstr \"strings\"\n)\n\nfunc c() { fmt.Exit(len(str.ToUpper(\"c\"))) }\n",
+}
+
+// c07ReuseJudge: the print equals the import-managed print of the same source through fresh objects
+func c07ReuseJudge(src, out string) string {
+	d, r := reuseObjects()
+	f, err := d.Parse(src)
+	if err != nil {
+		return ""
+	}
+	var buf bytes.Buffer
+	if err := r.Fprint(&buf, f); err != nil {
+		return ""
+	}
+	if buf.String() != out {
+		return "is not what fresh objects print: " + diffAt(buf.Bytes(), []byte(out))
+	}
+	return ""
+}
+
+func c07Reuse(c *Ctx) bool {
+	reuseImports = true
+	defer func() { reuseImports = false }()
+	return reuseCheck(c, c07ReuseSources, c07ReuseJudge, "c07reuse")
+}
+
+func init() {
+	replayers["c07reuse"] = func(raw json.RawMessage) string {
+		var r struct{ Beh string }
+		json.Unmarshal(raw, &r)
+		var b reuseBeh
+		if json.Unmarshal([]byte(r.Beh), &b) != nil {
+			return ""
+		}
+		reuseImports = true
+		defer func() { reuseImports = false }()
+		return reuseReplayWith(b, c07ReuseSources, c07ReuseJudge)
 	}
 }
